@@ -177,6 +177,7 @@ theorem C12_overthrottle_witness :
        .injectReq 2 5000000 witnessTrace 0, .pollServer]).drop 11
       = [.obs (.tReady (.server 0) .ready),
          .obs (.tNext (.server 0) (.item (.cancel 1 witnessTrace))),
+         .obs (.wake (.server 0)),      -- the emptying `deadlines.remove` wakes the waker the queue stored
          .obs (.tNext (.server 0) (.item (.request 2 5000000 witnessTrace 0))),
          .obs (.tSend (.server 0) (.response 2 (.err throttleKindIdx)) true),
          .obs (.tNext (.server 0) .pending),
